@@ -444,6 +444,23 @@ func genMetric(r *rand.Rand, mode string) metricIn {
 			attrs = append(attrs, [2][]int{B("v"), B(pick(r, []string{"1", "2", "3"}))})
 			in.Recs = append(in.Recs, MemRec{ID: i + 1, TS: []int{mBase + 1 + i, 0}, Line: B("m"), Attrs: attrs, Doc: [][2][]int{}})
 		}
+		if r.Intn(6) == 0 {
+			// an outer grouping over the union of two differently grouped aggregations of the same logs: the grouping clause of
+			// the query is the same for every sample and every step
+			n1, n2 := pick(r, names), pick(r, names)
+			mk := func(id int, g grpIn) *mexprIn {
+				rg := &mexprIn{T: "range", ID: id, Op: "count_over_time", Sel: []matcherIn{}, Param: Ints{0, 1}, Grp: noGrp(), V: Ints{0, 1}, Unwrap: unwrapIn{Label: Ints{}}, Range: 100,
+					Stages: []stageIn{{T: "drop", Labels: IntsList{B("msg"), B("v")}}}}
+				return &mexprIn{T: "vecagg", Op: "sum", Grp: g, E: rg, Sel: []matcherIn{}, Stages: []stageIn{}, Param: Ints{0, 1}, V: Ints{0, 1}, Unwrap: unwrapIn{Label: Ints{}}}
+			}
+			u := &mexprIn{T: "binop", Op: "or", A: mk(1, grpIn{Mode: "by", Labels: IntsList{B(n2)}}), B: mk(2, grpIn{Mode: "by", Labels: IntsList{B(n1)}}),
+				Sel: []matcherIn{}, Stages: []stageIn{}, Param: Ints{0, 1}, V: Ints{0, 1}, Unwrap: unwrapIn{Label: Ints{}}, Grp: noGrp()}
+			in.Expr = mexprIn{T: "vecagg", Op: "sum", Grp: grpIn{Mode: "by", Labels: IntsList{B(n1), B(n2)}}, E: u,
+				Sel: []matcherIn{}, Stages: []stageIn{}, Param: Ints{0, 1}, V: Ints{0, 1}, Unwrap: unwrapIn{Label: Ints{}}}
+			in.Evals = []evalIn{{Start: mBase + 50, End: mBase + 50, Step: 0}, {Start: mBase + 40, End: mBase + 60, Step: 10}}
+			in.Reps = 4
+			return in
+		}
 		e := &mexprIn{T: "range", ID: 1, Sel: []matcherIn{}, Param: Ints{0, 1}, Grp: noGrp(), V: Ints{0, 1}, Unwrap: unwrapIn{Label: Ints{}}, Range: 100}
 		switch r.Intn(3) {
 		case 0:
